@@ -25,6 +25,7 @@ type caseT struct {
 	G       *gramenum.Gram   `json:"g"`
 	Inputs  []gramenum.Input `json:"inputs"`
 	K       int              `json:"k"`
+	Min     bool             `json:"minimize_dfa,omitempty"` // also minimize the automaton (states resolved by different lookahead automata must stay apart)
 	Input   int              `json:"input"`
 	W       string           `json:"w"`
 }
@@ -129,7 +130,7 @@ func checkCase(k caseT, L int, cnt *counters, c *core.Ctx) {
 	lg := k.G.ToLalr(k.Inputs)
 	var tbl *lalr.Tables
 	var cerr error
-	if err := core.Guard(func() { tbl, cerr = lalr.Compile(lg, lalr.Options{Lookahead: k.K}) }); err != nil {
+	if err := core.Guard(func() { tbl, cerr = lalr.Compile(lg, lalr.Options{Lookahead: k.K, MinimizeDFA: k.Min}) }); err != nil {
 		c.Violate("panic:"+core.PanicSite(err), err.Error()+" :: "+k.Grammar, k)
 		return
 	}
@@ -234,26 +235,54 @@ func family2(maxU int) []*gramenum.Gram {
 	return out
 }
 
+// family3: two conflict STATES with the same conflict terminals and lookahead words but opposite
+// resolutions, which a state minimizer must keep apart:
+//
+//	S: A u tc | B u td | tp C u td | tp D u tc ;  A: te ;  B: te ;  C: tf ;  D: tf
+//
+// terminals: 1=a 2=b 3=c 4=d 5=p 6=e 7=f; nonterminals 8=S 9=A 10=B 11=C 12=D.
+func family3(maxU int) []*gramenum.Gram {
+	var out []*gramenum.Gram
+	for _, u := range words([]int{1, 2}, maxU, false) {
+		g := &gramenum.Gram{T: 7, N: 5}
+		g.Rules = append(g.Rules,
+			gramenum.Rule{LHS: 8, RHS: append(append([]int{9}, u...), 3)},
+			gramenum.Rule{LHS: 8, RHS: append(append([]int{10}, u...), 4)},
+			gramenum.Rule{LHS: 8, RHS: append(append([]int{5, 11}, u...), 4)},
+			gramenum.Rule{LHS: 8, RHS: append(append([]int{5, 12}, u...), 3)},
+			gramenum.Rule{LHS: 9, RHS: []int{6}},
+			gramenum.Rule{LHS: 10, RHS: []int{6}},
+			gramenum.Rule{LHS: 11, RHS: []int{7}},
+			gramenum.Rule{LHS: 12, RHS: []int{7}})
+		out = append(out, g)
+	}
+	return out
+}
+
 func run(c *core.Ctx) {
 	L := 6
 	if !c.Quick() {
 		L = 7
 	}
 	c.Set("L", L)
-	c.Rule("(a) family S: A u x | B u y, A: w, B: w for all words w (|w|<=2), u (|u|<=2 quick / 3 thorough) over {a,b}, with variants: shared suffix nonterminal, nullable symbol inside the suffix, a second conflict pair sharing the lookahead automaton; eoi and no-eoi input; k = 1..8; (a2) two-group family S: A u1 tc | B u1 td | A u2 te | B u2 tf for all unordered pairs of distinct words (|u|<=2 quick / 3 thorough), k=1..4/8; (b) every reduced rule set of the tiny scope compiled with lalr(2) and lalr(3). For every successful compile every token string <= L vs the CFG oracle. non-trivial = successful compile that used deep lookahead (UsedLADepth>0)")
+	c.Rule("(a) family S: A u x | B u y, A: w, B: w for all words w (|w|<=2), u (|u|<=2 quick / 3 thorough) over {a,b}, with variants: shared suffix nonterminal, nullable symbol inside the suffix, a second conflict pair sharing the lookahead automaton; eoi and no-eoi input; k = 1..8, for k = 2..4 also with minimizeDFA; (a2) two-group family S: A u1 tc | B u1 td | A u2 te | B u2 tf for all unordered pairs of distinct words (|u|<=2 quick / 3 thorough), k=1..4/8; (a3) two-state family S: A u tc | B u td | tp C u td | tp D u tc (A,B: te; C,D: tf) for all words |u|<=2, k=1..4 x minimizeDFA off/on; (b) every reduced rule set of the tiny scope compiled with lalr(2) and lalr(3). For every successful compile every token string <= L vs the CFG oracle. non-trivial = successful compile that used deep lookahead (UsedLADepth>0)")
 	var cnt counters
 	fam := family(c.Quick())
 	type job struct {
 		g   *gramenum.Gram
 		k   int
 		eoi bool
+		min bool
 	}
 	var jobs []job
 	for _, g := range fam {
 		for k := 1; k <= 8; k++ {
-			jobs = append(jobs, job{g, k, true})
+			jobs = append(jobs, job{g, k, true, false})
 			if k <= 4 {
-				jobs = append(jobs, job{g, k, false})
+				jobs = append(jobs, job{g, k, false, false})
+			}
+			if k >= 2 && k <= 4 {
+				jobs = append(jobs, job{g, k, true, true}) // + minimizeDFA
 			}
 		}
 	}
@@ -263,7 +292,7 @@ func run(c *core.Ctx) {
 			return
 		}
 		j := jobs[i]
-		checkCase(caseT{Grammar: j.g.String(), G: j.g, Inputs: []gramenum.Input{{NT: 5, Eoi: j.eoi}}, K: j.k}, L, &cnt, c)
+		checkCase(caseT{Grammar: j.g.String(), G: j.g, Inputs: []gramenum.Input{{NT: 5, Eoi: j.eoi}}, K: j.k, Min: j.min}, L, &cnt, c)
 	})
 	// two-group family
 	maxU2, L2, maxK2 := 2, 4, 4
@@ -274,7 +303,10 @@ func run(c *core.Ctx) {
 	var jobs2 []job
 	for _, g := range fam2 {
 		for k := 1; k <= maxK2; k++ {
-			jobs2 = append(jobs2, job{g, k, true})
+			jobs2 = append(jobs2, job{g, k, true, false})
+			if k == 2 || k == 3 {
+				jobs2 = append(jobs2, job{g, k, true, true})
+			}
 		}
 	}
 	core.ParallelFor(len(jobs2), 16, func(i int) {
@@ -283,8 +315,25 @@ func run(c *core.Ctx) {
 			return
 		}
 		j := jobs2[i]
-		checkCase(caseT{Grammar: j.g.String(), G: j.g, Inputs: []gramenum.Input{{NT: 7, Eoi: true}}, K: j.k}, L2, &cnt, c)
+		checkCase(caseT{Grammar: j.g.String(), G: j.g, Inputs: []gramenum.Input{{NT: 7, Eoi: true}}, K: j.k, Min: j.min}, L2, &cnt, c)
 	})
+	// two-state family
+	fam3 := family3(2)
+	var jobs3 []job
+	for _, g := range fam3 {
+		for k := 1; k <= 4; k++ {
+			jobs3 = append(jobs3, job{g, k, true, false}, job{g, k, true, true})
+		}
+	}
+	core.ParallelFor(len(jobs3), 16, func(i int) {
+		if c.Expired() {
+			c.Capped("two-state family not completed (budget)")
+			return
+		}
+		j := jobs3[i]
+		checkCase(caseT{Grammar: j.g.String(), G: j.g, Inputs: []gramenum.Input{{NT: 8, Eoi: true}}, K: j.k, Min: j.min}, len(j.g.Rules[2].RHS)+1, &cnt, c)
+	})
+	c.Set("two_state_family_grammars", len(fam3))
 	c.Set("two_group_family_grammars", len(fam2))
 	c.Set("family_grammars", len(fam))
 	c.Sample(map[string]any{"grammar": fam[3].String(), "k": "1..8"})
@@ -354,7 +403,7 @@ func replay(c *core.Ctx, raw json.RawMessage) error {
 		return err
 	}
 	lg := k.G.ToLalr(k.Inputs)
-	tbl, err := lalr.Compile(lg, lalr.Options{Lookahead: k.K})
+	tbl, err := lalr.Compile(lg, lalr.Options{Lookahead: k.K, MinimizeDFA: k.Min})
 	if err != nil {
 		return nil
 	}
